@@ -9,6 +9,7 @@ import warnings
 
 from vf import ref_schema as S
 from vf import universe as U
+from vf.core import disturb_class
 from vf.core import vacuous, HarnessError, Tally
 
 LEVEL = "exploration"
@@ -181,6 +182,9 @@ def work(chunk):
             except Exception as e:
                 if not labels:
                     t.fail(f"C01|baseline|{clsname}|{basekind}-cannot-construct", {"term": term, "form": None, "version": None, "labels": []}, f"{type(e).__name__}: {e}")
+                elif not S.term_problems(term):
+                    # a variation the reference finds valid (presence, groups, member kinds, class-specific rules) is refused
+                    t.fail(f"C01|{clsname}|valid-instance-refused-{type(e).__name__}", {"term": term, "form": None, "version": None, "labels": list(labels)}, f"{type(e).__name__}: {str(e)[:200]} (variation {list(labels)})")
                 t.count("refused-by-constructor")
                 continue
             origterm = S.inst_to_term(inst)
@@ -195,6 +199,10 @@ def work(chunk):
             check_instance(t, cl, term, inst, origterm, FORMS, vf, labels)
             if not labels and basekind == "MAXS":
                 edit_and_recheck(t, cl, cls, term, inst, vf)
+            if not labels:
+                # the baseline went through a class nothing had been refused by; its variations follow refused
+                # constructions / conversions and a look at the base classes
+                disturb_class(cls)
         t.count("class-baselines")
     return t
 
